@@ -836,7 +836,8 @@ func (c *Conn) advanceFrame() (int, error) {
 		}
 
 		if err := c.setReadRemaining(int64(binary.BigEndian.Uint64(p))); err != nil {
-			return noFrame, err
+			// a length with the most significant bit set: beyond any limit
+			return noFrame, c.readLimitExceeded()
 		}
 	}
 
@@ -848,20 +849,29 @@ func (c *Conn) advanceFrame() (int, error) {
 		// Don't allow readLength to overflow in the presence of a large readRemaining
 		// counter.
 		if c.readLength < 0 {
-			return noFrame, ErrReadLimit
+			return noFrame, c.readLimitExceeded()
 		}
 
 		if c.readLimit > 0 && c.readLength > c.readLimit {
-			if err := c.CloseWithError(CloseMessageTooBig, ""); err != nil {
-				return noFrame, err
-			}
-			return noFrame, ErrReadLimit
+			return noFrame, c.readLimitExceeded()
 		}
 
 		return frameType, nil
 	}
 
 	return frameType, nil
+}
+
+// readLimitExceeded reports a message that is longer than the connection may
+// read. With a read limit configured the session is closed first, whatever the
+// length field said (also a length that no int64 holds).
+func (c *Conn) readLimitExceeded() error {
+	if c.readLimit > 0 {
+		if err := c.CloseWithError(CloseMessageTooBig, ""); err != nil {
+			return err
+		}
+	}
+	return ErrReadLimit
 }
 
 // NextReader returns the next data message received from the peer. The
